@@ -61,6 +61,40 @@ def check(case):
                 l.validate()
         attempt("Gfa", f, fails, c)
         return dict(key=("doc", text), nontrivial=True, failures=fails, sample=dict(text=text, vlevel=vlevel))
+    if kind == "file":
+        _, data, vlevel = case
+        c = dict(data=repr(data), vlevel=vlevel, repro="import gfapy\nopen('/tmp/x.gfa','wb').write(%r)\ngfapy.Gfa.from_file('/tmp/x.gfa', vlevel=%d)" % (data, vlevel))
+        def f():
+            import tempfile, os
+            fd, pth = tempfile.mkstemp(suffix=".gfa")
+            try:
+                os.write(fd, data); os.close(fd)
+                g = gfapy.Gfa.from_file(pth, vlevel=vlevel)
+                str(g)
+            finally:
+                os.unlink(pth)
+        attempt("from_file", f, fails, c)
+        return dict(key=("file", data, vlevel), nontrivial=True, failures=fails, sample=dict(data=repr(data)))
+    if kind == "groups":
+        _, lines, vlevel = case
+        c = dict(lines=lines, vlevel=vlevel, repro="import gfapy\ng = gfapy.Gfa(%r, vlevel=%d)\nfor l in g.lines: [getattr(l, q, None) for q in ('captured_path', 'induced_set')]\ng.to_gfa1()" % (lines, vlevel))
+        def f():
+            g = gfapy.Gfa(lines, vlevel=vlevel)
+            for l in g.lines:
+                for q in ("captured_path", "captured_segments", "induced_set", "induced_segments_set", "induced_edges_set"):
+                    if hasattr(type(l), q):
+                        try:
+                            getattr(l, q)
+                        except gfapy.Error:
+                            pass
+            str(g)
+            try:
+                g.validate()
+            except gfapy.Error:
+                pass
+            g.to_gfa1()
+        attempt("groups", f, fails, c)
+        return dict(key=("groups", tuple(lines), vlevel), nontrivial=True, failures=fails, sample=dict(lines=lines))
     if kind == "api":
         _, version, ids, op, arg, vlevel = case
         lines = universe.lines_of(version, ids)
@@ -117,6 +151,29 @@ def cases(tier, seed):
                     out.append(("doc", slines + [pl], vlevel))
                     out.append(("doc", [pl] + slines, vlevel))
                     out.append(("line", pl, vlevel, "gfa1"))
+    # a tag name predefined for ANOTHER record type, on every record type; identifier tags of a wrong datatype
+    basel = {"gfa1": {"S": "S\tA\t*", "L": "L\tA\t+\tB\t+\t*", "C": "C\tA\t+\tB\t+\t0\t*", "P": "P\tp\tA+,B+\t*", "H": "H"},
+             "gfa2": {"S": "S\tA\t8\t*", "E": "E\te\tA+\tB+\t6\t8$\t0\t2\t*", "G": "G\tg\tA+\tB-\t5\t*", "F": "F\tA\tx+\t0\t2\t0\t2\t*", "O": "O\to\tA+ B+",
+                      "U": "U\tu\tA B", "H": "H", "X": "X\tq"}}
+    tagv = ["VN:Z:1.0", "TS:i:10", "LN:i:8", "RC:i:1", "FC:i:1", "KC:i:1", "SH:H:AB", "UR:Z:u", "MQ:i:1", "NM:i:1", "ID:Z:x", "ID:i:5", "ID:J:[1]", "ID:f:1.5", "ID:A:x", "LN:Z:x", "TS:Z:x"]
+    for version in basel:
+        segs = ["S\tA\t*", "S\tB\t*"] if version == "gfa1" else ["S\tA\t8\t*", "S\tB\t8\t*"]
+        for rt, bl in basel[version].items():
+            for tv in tagv:
+                for vlevel in (0, 1, 3):
+                    out.append(("line", bl + "\t" + tv, vlevel, version))
+                    out.append(("doc", [x for x in segs if x != bl] + [bl + "\t" + tv], vlevel))
+    # files that are not text
+    for data in (b"S\ta\t*\txx:Z:\xff\xfe\n", b"\xff\xfeS\x00", b"H\tVN:Z:1.0\n\x80\n", b"S\ta\t*\n\x00\x00"):
+        for vlevel in (0, 1):
+            out.append(("file", data, vlevel))
+    # groups that contain themselves, directly or through each other
+    base2 = ["S\tA\t8\t*", "S\tB\t8\t*", "E\te1\tA+\tB+\t6\t8$\t0\t2\t*"]
+    for gl in (["O\ta\tb+", "O\tb\ta+"], ["O\ta\ta+"], ["O\ta\tA+ b-", "O\tb\te1+ a+"], ["U\ta\tb", "U\tb\ta"], ["U\ta\ta A"], ["U\ta\tb A", "U\tb\tc", "U\tc\ta e1"],
+               ["O\ta\tb+ A+", "O\tb\tc-", "O\tc\ta+"], ["U\tu\to", "O\to\tA+ o+"]):
+        for vlevel in (0, 1, 3):
+            out.append(("groups", base2 + gl, vlevel))
+            out.append(("groups", gl + base2, vlevel))
     # E lines over a grid of position pairs ($ on the begin, on the end, on both, equal positions, beyond the segment)
     posv = ["0", "3", "8", "9", "0$", "3$", "8$", "9$"]
     for b in posv:
@@ -146,7 +203,8 @@ def cases(tier, seed):
         docs = [["sA", "sB", "l1", "p1"], ["sA", "sB", "sC", "l10", "c2"]] if version == "gfa1" else [["sA", "sB", "e1", "o1", "u1", "g1"], ["sA", "f1", "x1"]]
         names = ["A", "B", "p1", "e1", "o1", "u1", "g1", "lk", "cn", "*", "", "nope", "A+", "7", "\t", "²"]
         values = ["x", "", "*", "1", "\t", "a b", "1_0", "{", "0A", "c,300", "²", "A+", "-5"]
-        fields = ["name", "LN", "slen", "sequence", "xx", "XX", "x", "", "from_segment", "overlap", "alignment", "VN", "ab", "RC", "items", "sid1", "beg1", "disp", "var", "1a"]
+        fields = ["name", "LN", "slen", "sequence", "xx", "XX", "x", "", "from_segment", "overlap", "alignment", "VN", "ab", "RC", "items", "sid1", "beg1", "disp", "var", "1a",
+                  "_data", "_datatype", "_gfa", "_refs", "_virtual", "vlevel", "get", "validate", "__class__", "__dict__"]
         for d in docs:
             ids = universe.closure(cat, d)
             for vlevel in (0, 1, 3):
